@@ -39,7 +39,7 @@ func errorReturn(ret *ssa.Return) bool {
 	if len(ret.Results) == 0 {
 		return false
 	}
-	v := ret.Results[len(ret.Results)-1]
+	v := unspill(ret, len(ret.Results)-1)
 	if !types.Identical(v.Type(), types.Universe.Lookup("error").Type()) {
 		return false
 	}
